@@ -1750,7 +1750,7 @@ export class AnyOfDiscriminatedRuntype extends BaseRuntype {
           propertyName: this.discriminator,
           mapping: Object.fromEntries(variantRefs.map(({ key, ref }) => [key, ref])),
         },
-        oneOf: variantRefs.map(({ ref }) => ({ $ref: ref })),
+        oneOf: Array.from(new Set(variantRefs.map(({ ref }) => ref))).map((ref) => ({ $ref: ref })),
       });
     }
 
@@ -1764,10 +1764,28 @@ export class AnyOfDiscriminatedRuntype extends BaseRuntype {
   }
   private getSchemaVariantRefs(ctx: SchemaContext): Array<{ key: string; ref: string }> {
     const unionHash = this.hash({ seen: Object.create(null) });
-    return Object.entries(this.schemaMapping).map(([key, schema]) => ({
-      key,
-      ref: this.ensureSchemaVariantRef(schema, key, unionHash, ctx),
-    }));
+    // One definition per variant: a variant listed under several keys (its discriminator is a union
+    // of literals) is stored once, and two keys that give the same component name part ("a-b" and
+    // "a_b") are told apart by a number.
+    const refOfVariant = new Map<Runtype, string>();
+    const usedLabels = new Set<string>();
+    return Object.entries(this.schemaMapping).map(([key, schema]) => {
+      let ref = refOfVariant.get(schema);
+      if (ref == null) {
+        let label = key;
+        for (
+          let n = 2;
+          usedLabels.has(AnyOfDiscriminatedRuntype.sanitizeComponentNamePart(label));
+          n++
+        ) {
+          label = `${key} ${n}`;
+        }
+        usedLabels.add(AnyOfDiscriminatedRuntype.sanitizeComponentNamePart(label));
+        ref = this.ensureSchemaVariantRef(schema, label, unionHash, ctx);
+        refOfVariant.set(schema, ref);
+      }
+      return { key, ref };
+    });
   }
 
   private getPrintingContext(ctx: SchemaContext): SchemaPrintingContext {
